@@ -124,3 +124,37 @@ Proof.
   rewrite H. apply Rmult_le_compat_r; [lra|exact HT].
 Qed.
 End S.
+
+(* ---------- Pipeline.qimin after the repair: never above a tabulated flow ---------- *)
+Lemma lexmin_le : forall (l : list (R * R)) h q, lexmin RN l = Some (h, q) -> forall h' q', In (h', q') l -> h <= h'.
+Proof.
+  induction l as [|[h0 q0] r IH]; intros h q H h' q' HI; [destruct HI|].
+  cbn [lexmin] in H. destruct (lexmin RN r) as [[h1 q1]|] eqn:E.
+  - toR_in H. destruct (Rltb h0 h1 || Reqb h0 h1 && Rleb q0 q1)%bool eqn:B.
+    + injection H as <- <-. destruct HI as [HI|HI]; [injection HI as <- <-; lra|].
+      pose proof (IH h1 q1 eq_refl h' q' HI).
+      apply orb_true_iff in B. destruct B as [B|B]; [apply Rltb_true in B; lra|].
+      apply andb_true_iff in B. destruct B as [B _]. apply Reqb_true in B. lra.
+    + injection H as <- <-. destruct HI as [HI|HI]; [|exact (IH h1 q1 eq_refl h' q' HI)].
+      injection HI as <- <-. apply orb_false_iff in B. destruct B as [B _]. apply Rltb_false in B. exact B.
+  - injection H as <- <-. destruct HI as [HI|HI]; [injection HI as <- <-; lra|].
+    destruct r as [|[a b] r']; [destruct HI|]. cbn [lexmin] in E. destruct (lexmin RN r') as [[? ?]|]; [destruct (_ || _)%bool|]; discriminate E.
+Qed.
+
+(* the flow reported has a system head (as the code saw it) no higher than that at ANY tabulated flow at or above the
+   lower bound of the search -- whatever the two bounded minimisations returned *)
+Theorem qimin_not_above_tabulated (flows : list R) (head : R -> R) (rx rf fx ff : R) :
+  forall q, In q flows -> lower_bound RN flows <= q -> snd (qimin RN flows head rx rf fx ff) <= head q.
+Proof.
+  intros q Hq Hl. unfold qimin. cbv zeta.
+  set (tab := map (fun q0 => (head q0, q0)) (filter (fun q0 => nleb RN (lower_bound RN flows) q0) flows)).
+  assert (Hin : In (head q, q) tab).
+  { unfold tab. apply in_map_iff. exists q. split; [reflexivity|]. apply filter_In. split; [exact Hq|]. toR. apply Rleb_true. exact Hl. }
+  destruct (lexmin RN tab) as [[ht qt]|] eqn:E.
+  - pose proof (lexmin_le tab ht qt E (head q) q Hin) as M. toR.
+    destruct (Rltb ht rf) eqn:B.
+    + match goal with |- context [if Rltb ?a ?b then _ else _] => destruct (Rltb a b) end; [|cbn [snd]; exact M].
+      destruct (Rleb ff ht) eqn:F; cbn [snd]; [apply Rleb_true in F; lra|exact M].
+    + cbn [snd]. apply Rltb_false in B. lra.
+  - exfalso. destruct tab as [|[a b] r]; [destruct Hin|]. cbn [lexmin] in E. destruct (lexmin RN r) as [[? ?]|]; [destruct (_ || _)%bool|]; discriminate E.
+Qed.
